@@ -45,6 +45,12 @@ class TrimModel(engine.RealModel):
         from pycel import ExcelCompiler
         try:
             if act['op'] == 'trim':
+                # "frozen to the value they had at trim time": the outputs are
+                # evaluated first.  The model only trims when they are cached, so
+                # this is a no-op unless the code caches less than the model thinks
+                for o in sorted(act['o']):
+                    self.m.evaluate(W.addr(o))
+                    self.twin.evaluate(W.addr(o))
                 self.m.trim_graph([W.addr(i) for i in sorted(act['i'])],
                                   [W.addr(o) for o in sorted(act['o'])])
                 self.trimmed = True
